@@ -141,6 +141,12 @@ def run_property(pid, tier, seed, module_name=None, post=None):
     t0 = time.time()
     mod = importlib.import_module(module_name or f'mirse.props.{pid.lower()}')
     jobs = mod.jobs(tier, seed)
+    # breadth-first deepening across families: every family's shallow bounds run before anybody's deep ones, mandatory jobs first,
+    # so that the tier's time cap only ever cuts the deepest levels
+    fam_idx = {}; order = []
+    for j in jobs:
+        k = fam_idx.get(j.family, 0); fam_idx[j.family] = k + 1; order.append(k)
+    jobs = [j for _, _, j in sorted(zip([(0 if j.mandatory else 1, k) for j, k in zip(jobs, order)], range(len(jobs)), jobs), key=lambda t: (t[0], t[1]))]
     cap_s = TIER_CAP[tier] * float(os.environ.get('VERIF_TIME_SCALE', '1'))
     known = load_known()
     total = explore.Agg(); job_reports = []; failed_families = set(); inconclusive = []
